@@ -122,6 +122,10 @@ func fb() bool            { note("fb"); v := cur.BV[cnt%len(cur.BV)]; cnt++; ret
 func fbs() []byte         { note("fbs"); return []byte(fs()) }
 func fxs() []int          { note("fxs"); return append([]int(nil), cur.XS...) }
 
+type st struct{ n int }
+
+func (r st) add(x int) int { return r.n + x }
+
 func run(f func(in) interface{}, i in) (out string) {
 	logbuf = logbuf[:0]
 	cnt = 0
@@ -325,7 +329,7 @@ func Grid(r *rand.Rand, text string, max int) []Input {
 		floats = append(floats, strconv.Itoa(v), fmt.Sprintf("%d.5", v))
 	}
 	strs := []string{"", "a", "ab", "b", "é", "aé", "ba"}
-	xss := [][]int{{}, {1}, {3, 1, 2}, {9, 8, 7, 6}}
+	xss := [][]int{nil, {}, {1}, {3, 1, 2}, {9, 8, 7, 6}}
 	bss := []string{"", "a", "ab", "é"}
 	base := Input{A: 1, B: 2, C: 3, U: 7, V: 8, P: "1.5", Q: "2.5", S: "a", T: "b", XS: []int{3, 1, 2}, BS: "ab",
 		IV: []int{7, 8}, FV: []string{"1.5"}, SV: []string{"a"}, BV: []bool{true}, TM: 1700000000123456789}
